@@ -522,4 +522,162 @@ theorem code_subsumes (a b : OfMatch) (ha : v.prereqExact = false → PrereqExac
   exact OF.code_subsumes (v.pre a) (v.pre b) (prereq_pre v a ha) (prereq_pre v b hb) ta tb hbw
 
 end Variant
+
+/-! ### flows built from complete frames are exact -/
+
+theorem pack_srcCnt (o : OHeaders) (hc : o.dlType = some 0x0800 ∨ o.dlType = some 0x0806) :
+    srcCnt (packFlowMod (fromHeaders o)).wildcards = if o.nwSrc.isSome then 0 else 32 := by
+  have hv : (fromHeaders o).view .dlType = o.dlType := fromHeaders_view o .dlType
+  show srcCnt (fromHeaders o).wireWildcards = _
+  rw [wireWildcards_eq, srcCnt_eq, cnt_clearBits, hv, fromHeaders_view o .nwProto]
+  show clearBits _ (cnt 8 (wireMask o.dlType o.nwProto)) = _
+  rw [(wireMask_cnt_of_ipArp o hc).1, clearBits_zero, ← srcCnt_eq, fromHeaders_srcCnt]
+
+theorem pack_dstCnt (o : OHeaders) (hc : o.dlType = some 0x0800 ∨ o.dlType = some 0x0806) :
+    dstCnt (packFlowMod (fromHeaders o)).wildcards = if o.nwDst.isSome then 0 else 32 := by
+  have hv : (fromHeaders o).view .dlType = o.dlType := fromHeaders_view o .dlType
+  show dstCnt (fromHeaders o).wireWildcards = _
+  rw [wireWildcards_eq, dstCnt_eq, cnt_clearBits, hv, fromHeaders_view o .nwProto]
+  show clearBits _ (cnt 14 (wireMask o.dlType o.nwProto)) = _
+  rw [(wireMask_cnt_of_ipArp o hc).2, clearBits_zero, ← dstCnt_eq, fromHeaders_dstCnt]
+
+/-- the flow built from a complete frame arriving on a port is exact under the prerequisite rule: `from_packet` assigns every field
+    whose protocol is present, `_wire_wildcards` clears the wildcard bits of the others -/
+theorem selfflow_exactSig (g : Bool) (p : PHdr) (port : Nat) (hr : regularG g p = true) :
+    Spec.exactSig (packFlowMod (fromHeaders (extractG g true p (some port)))) = true := by
+  have e := extract_ok_auxG g p port hr
+  generalize extractG g true p (some port) = o at e
+  generalize Spec.headers p port = h at e
+  have hd := pack_dlType o
+  have hn := pack_nwProto o
+  have ht : o.dlType = some h.dlType := e.dlType
+  rw [ht] at hd hn
+  simp only [Option.getD_some, Option.some.injEq] at hd hn
+  have w4 : (packFlowMod (fromHeaders o)).wild .dlType = false := by rw [packFlowMod_wild]; simp [OHeaders.get, ht]
+  have hdl : ∀ t, Spec.dlTypeIs (packFlowMod (fromHeaders o)) t = (h.dlType == t) := by
+    intro t
+    have : Spec.wild (packFlowMod (fromHeaders o)) Spec.W_DL_TYPE = false := w4
+    simp [Spec.dlTypeIs, this, hd]
+  rw [Variant.exactSig_iff]
+  constructor
+  · intro f hf
+    rw [packFlowMod_wild] at hf
+    simp only [Bool.and_eq_true, Option.isNone_iff_eq_none, Bool.not_eq_true'] at hf
+    obtain ⟨hnone, _⟩ := hf
+    cases f
+    case inPort => simp [OHeaders.get, e.inPort] at hnone
+    case dlVlan => simp [OHeaders.get, e.dlVlan] at hnone
+    case dlSrc => simp [OHeaders.get, e.dlSrc] at hnone
+    case dlDst => simp [OHeaders.get, e.dlDst] at hnone
+    case dlType => simp [OHeaders.get, ht] at hnone
+    case dlVlanPcp => simp [OHeaders.get, e.dlVlanPcp] at hnone
+    case nwTos =>
+      have hn' : o.nwTos = none := hnone
+      by_cases h8 : h.dlType = 0x0800
+      · rw [e.tosHere h8] at hn'; cases hn'
+      · simp [Spec.prereqOk, Fld.bit, Spec.W_NW_TOS, Spec.ipSpecified, hdl, h8]
+    case nwProto =>
+      have hn' : o.nwProto = none := hnone
+      by_cases h8 : h.dlType = 0x0800 ∨ h.dlType = 0x0806
+      · have := (e.nwHere h8).2.2; rw [hn'] at this; cases this
+      · have a : ¬ h.dlType = 0x0800 := fun x => h8 (.inl x)
+        have b : ¬ h.dlType = 0x0806 := fun x => h8 (.inr x)
+        simp [Spec.prereqOk, Fld.bit, Spec.W_NW_TOS, Spec.W_NW_PROTO, Spec.nwSpecified, hdl, a, b]
+    case tpSrc =>
+      have hn' : o.tpSrc = none := hnone
+      by_cases h8 : h.dlType = 0x0800
+      · obtain ⟨_, _, c⟩ := e.nwHere (.inl h8)
+        have hp := e.nwProto.of_isSome c
+        by_cases hl : isL4Proto h.nwProto = true
+        · have := (e.tpHere h8 hl).1; rw [hn'] at this; cases this
+        · have hnp : (packFlowMod (fromHeaders o)).nwProto = h.nwProto := by rw [hn, if_pos (.inl h8), hp]; rfl
+          have hl' : (h.nwProto == 1 || h.nwProto == 6 || h.nwProto == 17) = false := by simpa [isL4Proto] using hl
+          simp [Spec.prereqOk, Fld.bit, Spec.W_NW_TOS, Spec.W_NW_PROTO, Spec.W_TP_SRC, Spec.tpSpecified, hdl, hnp, hl']
+      · simp [Spec.prereqOk, Fld.bit, Spec.W_NW_TOS, Spec.W_NW_PROTO, Spec.W_TP_SRC, Spec.tpSpecified, hdl, h8]
+    case tpDst =>
+      have hn' : o.tpDst = none := hnone
+      by_cases h8 : h.dlType = 0x0800
+      · obtain ⟨_, _, c⟩ := e.nwHere (.inl h8)
+        have hp := e.nwProto.of_isSome c
+        by_cases hl : isL4Proto h.nwProto = true
+        · have := (e.tpHere h8 hl).2; rw [hn'] at this; cases this
+        · have hnp : (packFlowMod (fromHeaders o)).nwProto = h.nwProto := by rw [hn, if_pos (.inl h8), hp]; rfl
+          have hl' : (h.nwProto == 1 || h.nwProto == 6 || h.nwProto == 17) = false := by simpa [isL4Proto] using hl
+          simp [Spec.prereqOk, Fld.bit, Spec.W_NW_TOS, Spec.W_NW_PROTO, Spec.W_TP_SRC, Spec.W_TP_DST, Spec.tpSpecified, hdl, hnp, hl']
+      · simp [Spec.prereqOk, Fld.bit, Spec.W_NW_TOS, Spec.W_NW_PROTO, Spec.W_TP_SRC, Spec.W_TP_DST, Spec.tpSpecified, hdl, h8]
+  · intro hs
+    have hc : h.dlType = 0x0800 ∨ h.dlType = 0x0806 := by
+      simpa [Spec.nwSpecified, hdl] using hs
+    have hc' : o.dlType = some 0x0800 ∨ o.dlType = some 0x0806 := by rcases hc with x | x <;> simp [ht, x]
+    obtain ⟨a, b, _⟩ := e.nwHere hc
+    rw [Spec.srcIgnored, Spec.dstIgnored, ← srcCnt_div, ← dstCnt_div, pack_srcCnt o hc', pack_dstCnt o hc', a, b]
+    exact ⟨rfl, rfl⟩
+
+
+/-- with repair D26, the flow built from any complete frame arriving on a port is exact-match for the switch -/
+theorem Variant.selfflow_exact (v : Variant) (hv : v.exactSig = true) (p : PHdr) (port : Nat) (hr : v.regular p = true) :
+    v.isWildcarded (v.ofWire (packFlowMod (v.fromPacket p port))) = false := by
+  rw [Variant.isWildcarded_sig v _ hv]
+  have := selfflow_exactSig (!v.arpLow8) p port hr
+  simp only [Variant.fromPacket, Variant.extract]
+  rw [this]; rfl
+
+
+/-! ### a table built from a list of flow-mods -/
+
+/-- the table after the flow-mods `fs` (ADDs, in order) under variant `v` -/
+def Variant.install (v : Variant) (fs : List Spec.Flow) : Table Spec.Flow :=
+  TableOps.run v.effectivePriority true (fs.map fun f => TableOps.Op.add (v.toEntry f))
+
+theorem Variant.mem_install (v : Variant) (fs : List Spec.Flow) (e : Entry Spec.Flow) :
+    e ∈ v.install fs ↔ ∃ f ∈ fs, e = v.toEntry f := by
+  have h := TableOps.mem_runFrom_adds v.effectivePriority true (fs.map v.toEntry) [] e
+  simp only [List.map_map, List.not_mem_nil, false_or, List.mem_map] at h
+  unfold Variant.install TableOps.run
+  have e1 : (fs.map fun f => TableOps.Op.add (v.toEntry f)) = fs.map (TableOps.Op.add ∘ v.toEntry) := rfl
+  rw [e1, h]
+  constructor
+  · rintro ⟨f, hf, rfl⟩; exact ⟨f, hf, rfl⟩
+  · rintro ⟨f, hf, rfl⟩; exact ⟨f, hf, rfl⟩
+
+theorem Variant.install_sorted (v : Variant) (fs : List Spec.Flow) : SortedBy v.effectivePriority (v.install fs) :=
+  TableOps.run_sorted _ _ _
+
+/-- lookup in a table built from flow-mods, against the standard (prerequisite-rule reading of "exact") -/
+theorem Variant.install_isBest (v : Variant) (fs : List Spec.Flow) (hfs : ∀ f ∈ fs, v.FlowOk f)
+    (p : PHdr) (port : Nat) (hr : v.regular p = true) (hpt : pktTos p % 4 = 0) :
+    Spec.IsBestSig fs (Spec.headers p port) ((v.entryForPacket (v.install fs) p port).map (·.data)) := by
+  have hmem : ∀ e ∈ v.install fs, e = v.toEntry e.data ∧ v.FlowOk e.data := by
+    intro e he
+    obtain ⟨f, hf, rfl⟩ := (v.mem_install fs e).mp he
+    exact ⟨rfl, hfs f hf⟩
+  have h := v.lookup_isBest (v.install fs) (v.install_sorted fs) hmem p port hr hpt
+  have hset : ∀ g, g ∈ (v.install fs).map (·.data) ↔ g ∈ fs := by
+    intro g
+    constructor
+    · intro hg
+      obtain ⟨e, he, rfl⟩ := List.mem_map.mp hg
+      obtain ⟨f, hf, rfl⟩ := (v.mem_install fs e).mp he
+      exact hf
+    · intro hg
+      exact List.mem_map.mpr ⟨v.toEntry g, (v.mem_install fs _).mpr ⟨g, hg, rfl⟩, rfl⟩
+  cases hq : (v.entryForPacket (v.install fs) p port).map (·.data) with
+  | none =>
+    rw [hq] at h
+    intro g hg; exact h g ((hset g).mpr hg)
+  | some f =>
+    rw [hq] at h
+    exact ⟨(hset f).mp h.1, h.2.1, fun g hg hm => h.2.2 g ((hset g).mpr hg) hm⟩
+
+/-- the two readings of "exact match" give the same lookup verdict on flows that wildcard no ignored field -/
+theorem isBest_of_isBestSig (fs : List Spec.Flow) (h : Spec.Headers) (o : Option Spec.Flow)
+    (hx : ∀ f ∈ fs, Spec.exactSig f.mtch = Spec.exact f.mtch) (hb : Spec.IsBestSig fs h o) : Spec.IsBest fs h o := by
+  have hr : ∀ f ∈ fs, Spec.rankSig f = Spec.rank f := fun f hf => by simp [Spec.rankSig, Spec.rank, hx f hf]
+  cases o with
+  | none => exact hb
+  | some f =>
+    obtain ⟨h1, h2, h3⟩ := hb
+    refine ⟨h1, h2, fun g hg hm => ?_⟩
+    rw [← hr g hg, ← hr f h1]; exact h3 g hg hm
+
 end Pox.OF
